@@ -56,6 +56,10 @@ var (
 		"xC1,xC3", "xC1,tC1X", "rC2,xC2", "rC2,uC2+100", "uC1+50,xC1", "pD0alt,tVX", "pC3alt,tVX", "xD0,xD1", "tC1X,xC1",
 		// a first registration with isCandidate=false; an unregister carrying an amount
 		"rC2false", "xC1$5",
+		// gas paid by somebody else for a registration, an unregistration, a top-up
+		"rC2/X", "xC1/X", "uC1+50/X",
+		// the node restarts before this (empty) block
+		restartLetter,
 		// boxes: unregister + a payment by the refund receiver; register + top-up; a box whose sub-transaction
 		// fees are credited before an income address change in the same block, and after it
 		"B:xC1;tC1X", "B:rC2;uC2+100", "B:tVX;xC3", "B:tVX,pD0alt", "pD0alt,B:tVX", "B:tVX,pC3alt", "B:xC1;xC3"}
@@ -85,13 +89,13 @@ type termPlan struct {
 func termPlans() []termPlan {
 	if core.Thorough() {
 		return []termPlan{
-			{"A", "full", 2}, {"A", "small", 3}, {"Ar", "core", 2}, {"Ar", "full", 1}, {"A'", "core", 2}, {"A'", "full", 1}, {"Ag", "core", 2}, {"Ag", "full", 1},
-			{"B", "full", 2}, {"B", "small", 3}, {"Bu", "core", 2}, {"Bu", "full", 1},
+			{"A", "full", 2}, {"A", "small", 3}, {"Ar", "core", 2}, {"Ar", "full", 1}, {"A'", "core", 2}, {"A'", "full", 1}, {"A''", "core", 2}, {"A''", "full", 1}, {"Ag", "core", 2}, {"Ag", "full", 1},
+			{"B", "full", 2}, {"B", "small", 3}, {"B''", "full", 1}, {"Bu", "core", 2}, {"Bu", "full", 1},
 		}
 	}
 	return []termPlan{
-		{"A", "core", 2}, {"A", "full", 1}, {"Ar", "small", 2}, {"Ar", "full", 1}, {"A'", "full", 1}, {"Ag", "full", 1},
-		{"B", "small", 2}, {"B", "full", 1}, {"Bu", "full", 1},
+		{"A", "core", 2}, {"A", "full", 1}, {"Ar", "small", 2}, {"Ar", "full", 1}, {"A'", "full", 1}, {"A''", "full", 1}, {"Ag", "full", 1},
+		{"B", "small", 2}, {"B", "full", 1}, {"B''", "full", 1}, {"Bu", "full", 1},
 	}
 }
 
